@@ -551,4 +551,25 @@ def probeObs (pad : Nat) (o : Nat) : List Int :=
   [(if d.chrom == [97] then 0 else if d.chrom == [98] then 1 else -1), d.pos, d.name.length, d.mapq,
    d.cigOp.length, d.flag, d.seq.length, d.qual.length]
 
+/-! ### one open writer, several `write` calls (`NpBufferedWriter.write`, io/parser.py) -/
+
+/-- the writer's state: the bytes sent to the file so far and the `_header_written` flag -/
+structure Writer where
+  out : Bytes
+  headerWritten : Bool
+deriving Repr, DecidableEq
+
+/-- one `writer.write(data)` call: the header goes out if it has not yet, and the flag is set AT ONCE; then the call either
+delivers the entries' bytes (`some bytes`; an empty table delivers `[]`) or RAISES (`none`: `get_buffer` refuses entries with
+replaced values — after the header step) -/
+def Writer.write (hdr : Bytes) (w : Writer) (call : Option Bytes) : Writer :=
+  let w1 : Writer := if w.headerWritten then w else { out := w.out ++ hdr, headerWritten := true }
+  match call with
+  | some b => { w1 with out := w1.out ++ b }
+  | none => w1
+
+/-- `with bnp.open(g, "w") as f: f.write(..); f.write(..); ...` — the gzip member and the end-of-file block -/
+def writerSession (hdr : Bytes) (calls : List (Option Bytes)) : List Bytes :=
+  [(calls.foldl (Writer.write hdr) { out := [], headerWritten := false }).out, []]
+
 end C16
